@@ -121,16 +121,18 @@ func (m *clientModel) onReply(tag int, ok, full bool) {
 }
 
 type RandCfg struct {
-	Cases  int      `json:"cases"`
-	NReq   int      `json:"nreq"`
-	Kinds  []string `json:"kinds"`
-	Shared bool     `json:"shared"` // allow tag groups (non-flush requests under a busy tag)
-	Close  bool     `json:"close"`  // disconnect at a random point
-	Extra  bool     `json:"extra"`  // extra answers
-	LateP  int      `json:"latep"`  // percent of implementation calls left unanswered (answered late)
-	SendP  int      `json:"sendp"`  // percent chance to send the next request when other steps are enabled
-	Probe  bool     `json:"probe"`
-	Insane bool     `json:"insane"` // also use fids the client does not know to be valid / free
+	Cases         int      `json:"cases"`
+	NReq          int      `json:"nreq"`
+	Kinds         []string `json:"kinds"`
+	Shared        bool     `json:"shared"` // allow tag groups (non-flush requests under a busy tag)
+	Close         bool     `json:"close"`  // disconnect at a random point
+	Extra         bool     `json:"extra"`  // extra answers
+	LateP         int      `json:"latep"`  // percent of implementation calls left unanswered (answered late)
+	SendP         int      `json:"sendp"`  // percent chance to send the next request when other steps are enabled
+	Probe         bool     `json:"probe"`
+	Insane        bool     `json:"insane"`        // also use fids the client does not know to be valid / free
+	CbGate        bool     `json:"cbgate"`        // FidDestroy / ConnClosed callbacks are slow (parked) once the client has gone
+	CloseVariants bool     `json:"closevariants"` // end the connection by EOF, an oversize header or an unparsable frame
 }
 
 // TestRandom: seeded random client sessions under seeded random gate schedules, beyond TLC's bounds.
@@ -160,6 +162,10 @@ func TestRandom(t *testing.T) {
 		rng := rand.New(rand.NewSource(seed*1000003 + int64(ci)))
 		var done [][]any
 		k, left := RunCase(t, lg, cfg, seed*7919+int64(ci), func(k *Case) {
+			k.C.Ops.GateCb = rc.CbGate
+			if rc.CloseVariants {
+				k.CloseBy = []string{"", "oversize", "badframe"}[rng.Intn(3)]
+			}
 			m := &clientModel{fst: map[int]string{}, busy: map[int]int{}}
 			for _, f := range cfg.InitFids {
 				m.fst[f] = "valid"
